@@ -314,8 +314,8 @@ theorem GInv.create (segSize : Nat) (md : Option Bytes) (hm : (md.getD []).lengt
     written, with a clean EOF, the decoder's CRC = the encoder's and its offset = the end of the last frame (where
     `wal.Open` continues writing) -/
 theorem GInv.readback {w : Writer} {g : GGhost} (hI : GInv w g) (hbuf : w.buf = []) (hseg : w.segSize % 8 = 0) :
-    ∃ segs, w.files.map (·.2) = gchainFiles 0 segs ∧ (segs.map (·.1)).flatten = g.all ∧
-      (∀ s ∈ segs, ∀ it ∈ s.1, GItemOk it) ∧
+    ∃ segs, w.files.map (·.2) = gchainFiles 0 segs ∧ segs.map (·.1) = g.closed ++ [g.cur] ∧
+      (∀ s ∈ segs, (∀ it ∈ s.1, GItemOk it) ∧ EndOfWritten s.2) ∧
       ∀ extra, ∃ d', recLoop (gchainFuel segs + extra) (Dec.open (gchainFiles 0 segs)) = (gchainRecords 0 segs, .decEof, d') ∧
         d'.crc = w.crc ∧ d'.off = w.tail.length := by
   have htail : w.tail = encodeFrame (crcRec g.crc0) ++ gEncodeAll g.crc0 g.cur := by
@@ -370,8 +370,8 @@ theorem GInv.readback {w : Writer} {g : GGhost} (hI : GInv w g) (hbuf : w.buf = 
     · simp only [List.mem_singleton] at h
       subst h
       exact hzend
-  refine ⟨gnoTail g.closed ++ [(g.cur, zeros)], hfiles, ?_, hitems, ?_⟩
-  · simp [gnoTail, GGhost.all, List.map_map, Function.comp_def]
+  refine ⟨gnoTail g.closed ++ [(g.cur, zeros)], hfiles, ?_, hsegok, ?_⟩
+  · simp [gnoTail, List.map_map, Function.comp_def]
   · intro ex
     obtain ⟨s0, rest0, hsr⟩ : ∃ s0 rest0, gnoTail g.closed ++ [(g.cur, zeros)] = s0 :: rest0 := by
       cases hcl : gnoTail g.closed with
